@@ -143,7 +143,16 @@ func (e *Exec) assumeRequires(ct *Contract) bool {
 		return true
 	}
 	env := e.envFor(nil)
-	env.instAt = e.goalSk
+	// quantified preconditions are instantiated at the goal constants and at the iteration indices of the loops
+	env.instAt = append([]Term{}, e.goalSk...)
+	for _, sm := range e.summaries {
+		if !sm.nested {
+			env.instAt = append(env.instAt, sm.K, "(+ "+sm.K+" 1)")
+		}
+	}
+	for _, k := range e.loopKs {
+		env.instAt = append(env.instAt, k)
+	}
 	for _, cl := range ct.clauses {
 		if cl.kind != "requires" {
 			continue
